@@ -217,7 +217,7 @@ def run(r):
         # pytest-named file (also modules named like standard-library modules, legal names for local modules); the
         # scan must index that module and its fixtures (the closure itself is C14's subject; here: one step)
         pulled_cases, pulled_meta = [], []
-        for k in range(6 if quick else 30):
+        for k in range(14 if quick else 60):
             proot = os.path.join(base, "pulled_%d" % k, "proj")
             mods = rnd.sample(["helpers_a", "types", "http", "logging", "shared_fx", "json", "kinds"], 3)
             sub = rnd.choice(["tests", "pkg", "src/app"])
@@ -225,8 +225,16 @@ def run(r):
             imps = []
             for m in mods:
                 open(os.path.join(proot, sub, m + ".py"), "w").write("import pytest\n\n@pytest.fixture\ndef from_%s():\n    return 1\n" % m)
-                imps.append(rnd.choice(["from .%s import *", "from .%s import from_%s"]).replace("%s", m))
-            open(os.path.join(proot, sub, "conftest.py"), "w").write("import pytest\n" + "\n".join(imps[:2]) + "\n")
+                # the statement in the textual shapes a top-level import may take: plain, behind a `;`, a tab
+                # (or nothing) behind `from`, several blanks
+                imps.append(rnd.choice(["from .%s import *", "from .%s import from_%s", "import os; from .%s import *", "from\t.%s import *",
+                                        "from.%s import from_%s", "from  .%s  import  *", "X = 1; from .%s import from_%s"]).replace("%s", m))
+            eol = rnd.choice(["\n", "\n", "\r\n"])
+            bom = rnd.random() < 0.3      # saved with a UTF-8 byte-order mark, the import on the first line
+            conf = ("\ufeff" + imps[0] + "\nimport pytest\n" + imps[1] + "\n") if bom else ("import pytest\n" + "\n".join(imps[:2]) + "\n")
+            open(os.path.join(proot, sub, "conftest.py"), "w", newline="").write(conf.replace("\n", eol))
+            tagc["pulled:bom" if bom else "pulled:no-bom"] += 1
+            tagc["pulled:crlf" if eol != "\n" else "pulled:lf"] += 1
             open(os.path.join(proot, sub, "test_pull.py"), "w").write(imps[2] + "\n\ndef test_p(%s):\n    pass\n" % ", ".join("from_" + m for m in mods))
             pulled_cases.append({"id": k, "ops": [{"op": "scan", "path": proot}, {"op": "file_cache_keys"}, {"op": "dump"}]})
             pulled_meta.append((proot, sub, mods))
